@@ -51,7 +51,8 @@ class CHECK(Check):
                     continue
                 out.append((d, m.text_of(s, numbered=True)))
             for t in ['select t.* from t', 'select * from int1.t1 join int2.t2 on t1.a = t2.a where t1.b = 1',
-                      'select * from int1.t1 where a in (select b from int2.t2)', 'select t.a, pred.p from int1.t1 as t join mindsdb.pred',
+                      'select * from int1.t1 where a in (select b from int2.t2)', 'select t.a, pred.p from int1.t1 as t join mindsdb.pred', "select * from int1.t1 as t join mindsdb.pred where t.a > '2020-01-01'",
+                      'select * from int1.t1 as t join mindsdb.pred where t.a > 5', 'select * from mindsdb.pred join int1.t1 as t where t.a > latest',
                       'select a from int1.t1 union select b from int2.t2', 'insert into int1.t1 (a) select b from int2.t2',
                       'create table int1.t (a int, b text)', 'select int1.t1.* from int1.t1', 'select `a b`.* from t `a b`']:
                 out.append((d, t))
@@ -81,8 +82,19 @@ class CHECK(Check):
     # ------------------------------------------------------------------
     def check_tree(self, res, t, text):
         root = type(t).__name__
+        fp0 = reflect.fingerprint(t)
+        c0 = None
+        try:
+            c0 = t.copy()
+        except Exception:
+            pass
         printed = safe_print(t)
         fp = reflect.fingerprint(t)
+        if fp != fp0:
+            # printing is read-only: a copy taken before must still be structurally equal to the printed original
+            res.violation(f'printing-changes-the-tree|{root}|{fp_diff(fp0, fp)}', f'{text!r}: str() / to_tree() changed the tree at {fp_diff(fp0, fp)}')
+        elif c0 is not None and reflect.fingerprint(c0) != fp:
+            res.violation(f'copy-not-structurally-equal-after-printing|{root}', f'{text!r}: a copy taken before printing differs from the printed original')
         for how, fn in (('copy', lambda x: x.copy()), ('deepcopy', copy.deepcopy)):
             try:
                 c = fn(t)
@@ -259,6 +271,25 @@ class CHECK(Check):
                     res.violation(f'step-deepcopy-not-equal|{type(s).__name__}', f'{text!r}')
             except Exception as e:
                 res.violation(f'step-eq-crash|{exc_sig(e)}', f'{text!r}: {e!r}')
+        # steps of the same statement planned under another catalog (the model is a time-series model there): equal steps must print the same
+        try:
+            plan_ts = plan_query(copy.deepcopy(tree), integrations=['int1', 'int2'], default_namespace='mindsdb',
+                                 predictor_metadata=[{'name': 'pred', 'integration_name': 'mindsdb', 'timeseries': True, 'order_by_column': 'a', 'group_by_columns': [], 'window': 2}])
+        except Exception:
+            plan_ts = None
+        if plan_ts is not None:
+            for s1 in plan.steps:
+                for s2 in plan_ts.steps:
+                    try:
+                        a, b = (s1 == s2), (s2 == s1)
+                    except Exception as e:
+                        res.violation(f'step-eq-crash|{exc_sig(e)}', f'{text!r}: {e!r}')
+                        continue
+                    if a not in (True, False) or b not in (True, False) or a != b:
+                        res.violation(f'step-eq-not-symmetric|{type(s1).__name__}|{type(s2).__name__}', f'{text!r}: {a!r} vs {b!r}')
+                    elif a is True and histories.canon(repr(s1)) != histories.canon(repr(s2)):
+                        res.violation(f'equal-steps-print-differently|{type(s1).__name__}|{type(s2).__name__}', f'{text!r}: {s1!r} == {s2!r}')
+            res.count('cross_catalog_step_pairs', len(plan.steps) * len(plan_ts.steps))
         # Result laws
         for r in (StepResult(0), StepResult(3)):
             try:
